@@ -346,6 +346,19 @@ fn judge_at(c: &Case, h: &[u8], stream: &Vec<u8>, st: &mut Stats) -> Verdict {
                         return Ok(());
                     }
                 };
+                // a receiver built on str::parse sees the same thing at every read
+                if let Ok(rf) = imp::v1_fromstr_header(&text[..have]) {
+                    let same = rf.is_complete() == r.is_complete() && rf.as_ref().ok().map(|x| x.header.len()) == r.as_ref().ok().map(|x| x.header.len()) && rf.is_ok() == r.is_ok();
+                    if !same {
+                        return Err(Fail::new(
+                            "receiver-diverges:FromStr",
+                            sh(h),
+                            "str::parse::<v1::Header> in a read loop",
+                            format!("the same outcome as try_from(&str) with {} bytes buffered: {}", have, imp::short(&format!("{:?}", r))),
+                            imp::short(&format!("{:?}", rf)),
+                        ));
+                    }
+                }
                 if r.is_complete() {
                     let ok_len = r.as_ref().ok().map(|x| x.header.len());
                     if have < h.len() || ok_len != Some(h.len()) {
